@@ -112,6 +112,8 @@ where
     /// Read an item that might not exist
     pub fn try_get(&self) -> Option<Arc<T>> {
         self.acl.assert_read_access(&self.id);
+        #[cfg(fontc_verif)]
+        fontdrasil::orchestration::verif::access("r", &self.id);
         self.value.read().as_ref().cloned()
     }
 }
@@ -127,6 +129,8 @@ where
     /// Change logging and dependent task execution will only fire if the value changed.
     pub fn set(&self, value: T) {
         self.acl.assert_write_access(&self.id);
+        #[cfg(fontc_verif)]
+        fontdrasil::orchestration::verif::access("r", &self.id);
 
         // nop?
         if self
@@ -138,6 +142,8 @@ where
         {
             return;
         }
+        #[cfg(fontc_verif)]
+        fontdrasil::orchestration::verif::access("w", &self.id);
 
         if self.persistent_storage.active() {
             let mut writer = self.persistent_storage.writer(&self.id);
@@ -188,6 +194,8 @@ where
     /// Read an item that might not exist
     pub fn try_get(&self, id: &I) -> Option<Arc<T>> {
         self.acl.assert_read_access(id);
+        #[cfg(fontc_verif)]
+        fontdrasil::orchestration::verif::access("r", id);
         self.value.read().get(id).cloned()
     }
 
@@ -198,6 +206,8 @@ where
             .iter()
             .map(|(id, v)| {
                 self.acl.assert_read_access(id);
+                #[cfg(fontc_verif)]
+                fontdrasil::orchestration::verif::access("r", id);
                 (id.clone(), v.clone())
             })
             .collect()
@@ -236,6 +246,8 @@ where
     pub fn set_unconditionally(&self, value: T) {
         let key = value.id();
         self.acl.assert_write_access(&key);
+        #[cfg(fontc_verif)]
+        fontdrasil::orchestration::verif::access("w", &key);
 
         if self.persistent_storage.active() {
             let mut writer = self.persistent_storage.writer(&key);
@@ -255,6 +267,8 @@ where
     pub fn set(&self, value: T) {
         let key = value.id();
         self.acl.assert_write_access(&key);
+        #[cfg(fontc_verif)]
+        fontdrasil::orchestration::verif::access("r", &key);
 
         // nop?
         if self
